@@ -296,8 +296,10 @@ def run(ck, prog, tier):
     # canary: the rules must fire on the known-bad fixture
     fx = os.path.join(VERIF, 'fixtures', 'c04_bad')
     ck2 = Check('C04', tier, fx, quiet=True)
+    from ..interp import suspended_gaps
     try:
-        analyse(ck2, Program(fx), fixture=True)
+        with suspended_gaps():
+            analyse(ck2, Program(fx), fixture=True)
     except AnalysisError as exc:
         raise AnalysisError('C04 fixture could not be analysed: %s' % exc)
     fired = {v['rule'] for v in ck2.violations}
